@@ -167,6 +167,26 @@ def merge_docs(docs):
     return {"version": "2.1.0", "$schema": "https://docs.oasis-open.org/sarif/sarif/v2.1.0/os/schemas/sarif-schema-2.1.0.json", "runs": [run]}
 
 
+def split_doc(doc, n=2):
+    """Spread the findings of a Sonar / DefectDojo document over n documents (a paginated export): entry k goes to
+    document k % n.  SARIF is returned whole (two SARIF files of one tool are rejected by the CLI)."""
+    fmt = doc_format(doc)
+    if fmt == "sarif":
+        return [doc]
+    outs = []
+    for i in range(n):
+        d = copy.deepcopy(doc)
+        if fmt == "sonar":
+            for k in ("issues", "hotspots"):
+                if k in d:
+                    d[k] = [e for j, e in enumerate(d[k]) if j % n == i]
+        else:
+            d["results"] = [e for j, e in enumerate(d["results"]) if j % n == i]
+            d["count"] = len(d["results"])
+        outs.append(d)
+    return outs
+
+
 def doc_findings(doc):
     """Flat list of (start_line, end_line) of the findings in a document (any format)."""
     out = []
